@@ -327,6 +327,8 @@ class SpecRT:
         if k.startswith('ref:') or k.startswith('abs:') or k.startswith('seq:') or k.startswith('tuple:') or \
                 k.startswith('list:') or k in ('dict', 'options'):
             return k
+        if k == 'any_rule':
+            return 'any_rule'
         v = self.spec_name(k, None, None)
         if isinstance(v, SClass):
             return 'ref:' + v.info.qualname
@@ -339,7 +341,8 @@ class SpecRT:
         if k.startswith('tuple:'):
             return STuple([self.fresh_by_annotation(x, st, base, allocate) for x in k[6:].split(',')])
         if k.startswith('abs:'):
-            return self.fresh_abs(k[4:], st, base)
+            # lists of objects handed around by the rules are duplicate-free (part of the callee's contract)
+            return self.fresh_abs(k[4:], st, base, distinct=True)
         if k == 'dict':
             return self.new_dict(st, symbolic=True, base=base)
         v = self.fresh_of_kind(k, base)
